@@ -448,6 +448,7 @@ func c04() {
 		c04Advance(R, rng, agent, d, users, round)
 	}
 	c04InternalErrors(R, agent, d, base, sets)
+	c04Options(R, rng, bin, dir)
 	c04Concurrent(R, rng, agent, users)
 	R.Count("cli_calls", ncli)
 }
@@ -591,5 +592,88 @@ func c04Concurrent(R *vr.Result, rng *rand.Rand, agent *agentProc, users map[str
 	R.Count("concurrent_requests", total)
 	if wrong > 0 {
 		R.Violate("c04:concurrent-requests-get-wrong-verdict", fmt.Sprintf("%d of %d concurrent requests received a verdict that is not the store's; first: %s", wrong, total, first), "concurrent", nil)
+	}
+}
+
+// c04Options: the same comparison on agents started with hash upgrades and a password policy in every combination,
+// over records of non-default parameter sets whose passwords pass / fail the policy: an auxiliary step that
+// fails (the upgrade of a password the policy refuses) must not change the verdict.
+func c04Options(R *vr.Result, rng *rand.Rand, bin, root string) {
+	dir := filepath.Join(root, "opt")
+	base := filepath.Join(dir, "base")
+	sets := ref.CheapSets(rng, 3)
+	cfg := filepath.Join(dir, "store.yml")
+	type ou struct {
+		name, pw string
+		set      int
+		admin    bool
+	}
+	users := []ou{{"root", "Root-Quartz-Zebra-Lamp-77!", 1, true}, {"weak2", "abc123", 2, false}, {"weak3", "password1", 3, true}, {"strong2", "Lamp-Quartz-Zebra-42-horse?", 2, false},
+		{"strong3", "kT7#vQ2$mZ9!pL4^wX8&bN3", 3, false}, {"cur1", "abc", 1, false}}
+	plant := func() {
+		os.RemoveAll(dir)                              //nolint:errcheck
+		os.MkdirAll(filepath.Join(base, ".tmp"), 0700) //nolint:errcheck
+		os.WriteFile(cfg, []byte(ref.YAML(base, 1, sets)), 0600) //nolint:errcheck
+		for _, u := range users {
+			ps := sets[u.set-1]
+			salt := make([]byte, ps.SaltLen())
+			rng.Read(salt)
+			ext := ".user"
+			if u.admin {
+				ext = ".admin"
+			}
+			os.WriteFile(filepath.Join(base, u.name+ext), []byte(ps.Record([]byte(u.pw), salt, time.Now().Unix()-1000)+"\n"), 0600) //nolint:errcheck
+		}
+	}
+	combos := [][]string{
+		{"--do-upgrades", "local", "--policy-type", "zxcvbn", "--policy-condition", "score >= 3"},
+		{"--do-upgrades", "local"},
+		{"--policy-type", "zxcvbn", "--policy-condition", "score >= 4"},
+		{"--do-upgrades", "local", "--policy-type", "zxcvbn", "--policy-condition", "entropy >= 60", "--hooks-dir", filepath.Join(root, "opt-hooks")},
+	}
+	os.MkdirAll(filepath.Join(root, "opt-hooks"), 0700)                                               //nolint:errcheck
+	os.WriteFile(filepath.Join(root, "opt-hooks", "h.sh"), []byte("#!/bin/sh\nexit 1\n"), 0700) //nolint:errcheck
+	for ci, extra := range combos {
+		plant()
+		d, err := store.NewDirFromConfig(cfg)
+		if err != nil {
+			R.Fatal = "options: " + err.Error()
+			return
+		}
+		agent, err := startAgent(bin, cfg, dir, []string{"sasl", "http", "ldap"}, extra...)
+		if err != nil {
+			R.Violate("c04:agent-does-not-start-with-options", fmt.Sprintf("%v: %v", extra, err), fmt.Sprintf("options/%d", ci), nil)
+			continue
+		}
+		for _, u := range users {
+			for _, pw := range []string{u.pw, u.pw + "x", strings.ToUpper(u.pw)} {
+				for _, fe := range []string{"sasl", "basic", "api", "ldap", "cli"} {
+					want, _, _, _, _ := d.Authenticate(u.name, pw)
+					var got string
+					switch fe {
+					case "sasl":
+						got = agent.saslAuth(u.name, pw)
+					case "basic":
+						got = agent.basicAuth(u.name, pw)
+					case "api":
+						got = agent.apiAuth(u.name, pw, false)
+					case "ldap":
+						got = agent.ldapBind(u.name, pw)
+					case "cli":
+						got = agent.cliAuth(u.name, pw)
+					}
+					R.Case(fmt.Sprintf("options|%d|%s|%s|%s", ci, u.name, vr.Q(pw), fe), true)
+					R.Count("option_combination_probes", 1)
+					if (got == "ok") != want || (got != "ok" && got != "denied") {
+						kind := "frontend-denies-store-accepts"
+						if !want {
+							kind = "frontend-accepts-store-denies"
+						}
+						R.Violate(fmt.Sprintf("c04:%s:%s:with-options", kind, fe), fmt.Sprintf("agent started with %v: %s says %q for (%s, %s), the store says %v", extra, fe, got, u.name, vr.Q(pw), want), fmt.Sprintf("options/%d/%s", ci, u.name), map[string]any{"options": extra, "user": u.name, "record_set": u.set})
+					}
+				}
+			}
+		}
+		agent.Stop()
 	}
 }
